@@ -59,6 +59,24 @@ def run(ck):
     D1 = [d for d in dicts if list(dict(d[3]).values())[0] == a1][0]
     D2 = [d for d in dicts if list(dict(d[3]).values())[0] == a2][0]
     ck.ok("C19.1", short(cmp_fn) + ":dictionaries", w, f"both key dictionaries come from {short(D1[1])}")
+    # the key identifies an alignment by BOTH ids; every alignment of the list gets an entry
+    dict_fn = p.get_function(D1[1])
+    from ..rules.common import merged_return
+    dv, dpa = merged_return(ck, dict_fn)
+    dparam = V(dict_fn.call_params()[0].name)
+    okd = False
+    found = T.show(dv)[:200]
+    if dv[0] == "comp" and dv[1] == "dict" and len(dv[3]) == 1 and not dv[3][0][1]:
+        (k, val), src = dv[2], dv[3][0][0]
+        while src[0] == "call" and src[1] in ("sorted", "list", "tuple", "reversed") and src[2]:
+            src = src[2][0]
+        bvs = [x for x in T.subterms(val) if x[0] == "bv"]
+        if k[0] == "tuple" and len(k[1]) == 2 and val[0] == "bv" and src == dparam:
+            attrs = {x[2] for x in k[1] if x[0] == "attr" and x[1] == val}
+            okd = attrs == {"queryId", "referenceId"}
+    ck.judge(okd, "C19.1", short(dict_fn) + ":key", where(dict_fn, dpa.node),
+             "alignments are keyed by (query id, reference id) - both ids, each alignment of the list under its own key",
+             found=found, required="{(a.queryId, a.referenceId): a for a in alignments}")
     kinds = {}
     for part in rows[1]:
         if part[0] != "comp" or len(part[3]) != 1:
